@@ -8,6 +8,7 @@ import OapiVerif.Model.Responses
 import OapiVerif.Model.Embed
 import OapiVerif.Model.Security
 import OapiVerif.Model.Enums
+import OapiVerif.Model.Merge
 /-!
 Line-protocol driver: one JSON object per line in, one per line out.
 `{"fn": <name>, ...}` ↦ `{"ok": <result>}` or `{"err": "bad-op"}` (never a default).
@@ -329,8 +330,38 @@ def goQuoteD (j : Json) : Except String Json := do
   let q := Enums.quoteGo s
   pure (Json.mkObj [("quoted", hexStr q), ("unquoted", match Enums.unquoteGo q with | some r => Json.str (hexStr r) | none => Json.null)])
 
+open Merge in
+def getFlat (j : Json) : Except String Flat := do
+  let ty := (j.getObjValAs? Nat "type").toOption
+  let fmt ← j.getObjValAs? Nat "format"
+  let propsJ ← (← j.getObjVal? "props").getArr?
+  let props ← propsJ.toList.mapM fun e => do
+    let k ← e.getObjValAs? String "k"
+    let v ← e.getObjValAs? Nat "v"
+    pure (k, v)
+  let req ← strs j "required"
+  let addlHas := (j.getObjValAs? Bool "addlHas").toOption
+  let addlSchema := (j.getObjValAs? Nat "addlSchema").toOption
+  let flags ← j.getObjValAs? Nat "flags"
+  let dflt ← j.getObjValAs? Bool "hasDefault"
+  pure { type := ty, format := fmt, props := props, required := req, addlHas := addlHas, addlSchema := addlSchema, flags := flags, hasDefault := dflt }
+
+open Merge in
+def mergeD (j : Json) : Except String Json := do
+  let msJ ← (← j.getObjVal? "members").getArr?
+  let ms ← msJ.toList.mapM getFlat
+  match mergeList ms with
+  | .error e => pure (Json.mkObj [("error", e)])
+  | .ok r => pure (Json.mkObj [
+      ("type", match r.type with | some t => Json.num t | none => Json.null), ("format", Json.num r.format),
+      ("props", Json.arr (r.props.map fun e => Json.mkObj [("k", e.1), ("v", Json.num e.2)]).toArray),
+      ("required", jstrs r.required),
+      ("addlHas", match r.addlHas with | some b => Json.bool b | none => Json.null),
+      ("addlSchema", match r.addlSchema with | some a => Json.num a | none => Json.null), ("flags", Json.num r.flags)])
+
 def dispatch (fn : String) (j : Json) : Except String Json :=
   match fn with
+  | "merge" => mergeD j
   | "enumNames" => enumNamesD j
   | "goQuote" => goQuoteD j
   | "secDefs" => secDefsD j
